@@ -504,8 +504,7 @@ class Multiplexer(wiring.Component):
     """
     def __init__(self, memory_map, *, shadow_overlaps=None):
         self._check_memory_map(memory_map)
-        self._r_shadow = self._Shadow(memory_map.data_width, shadow_overlaps, name="r_shadow")
-        self._w_shadow = self._Shadow(memory_map.data_width, shadow_overlaps, name="w_shadow")
+        self._shadow_overlaps = shadow_overlaps
         super().__init__({
             "bus": In(Signature(addr_width=memory_map.addr_width,
                                 data_width=memory_map.data_width))
@@ -530,15 +529,20 @@ class Multiplexer(wiring.Component):
     def elaborate(self, platform):
         m = Module()
 
+        # Shadow registers are local to an elaboration, so that a multiplexer can be elaborated
+        # more than once.
+        r_shadow = self._Shadow(self.bus.data_width, self._shadow_overlaps, name="r_shadow")
+        w_shadow = self._Shadow(self.bus.data_width, self._shadow_overlaps, name="w_shadow")
+
         for reg, _, (reg_start, reg_end) in self.bus.memory_map.resources():
             reg_range = range(reg_start, reg_end)
             if reg.element.access.readable():
-                self._r_shadow.add(reg_range)
+                r_shadow.add(reg_range)
             if reg.element.access.writable():
-                self._w_shadow.add(reg_range)
+                w_shadow.add(reg_range)
 
-        self._r_shadow.prepare()
-        self._w_shadow.prepare()
+        r_shadow.prepare()
+        w_shadow.prepare()
 
         # Instead of a straightforward multiplexer for reads, use an address comparator for each
         # shadow register chunk, AND the comparator output with the chunk contents, and OR all of
@@ -547,7 +551,7 @@ class Multiplexer(wiring.Component):
         # 2-MUX, but two 2-AND or 2-OR gates.
         r_data_fanin = 0
 
-        for chunk_offset, r_chunk in self._r_shadow.chunks():
+        for chunk_offset, r_chunk in r_shadow.chunks():
             # Use the same trick to select which CSR register is read into a shadow register chunk.
             r_chunk_w_en_fanin = 0
             r_chunk_data_fanin = 0
@@ -556,7 +560,7 @@ class Multiplexer(wiring.Component):
 
             with m.Switch(self.bus.addr):
                 for reg_range in r_chunk.registers():
-                    chunk_addr = self._r_shadow.encode_offset(chunk_offset, reg_range)
+                    chunk_addr = r_shadow.encode_offset(chunk_offset, reg_range)
                     reg        = self.bus.memory_map.decode_address(reg_range.start)
                     reg_offset = chunk_addr - reg_range.start
                     reg_r_data = reg.element.r_data.word_select(reg_offset, self.bus.data_width)
@@ -578,10 +582,10 @@ class Multiplexer(wiring.Component):
 
         m.d.comb += self.bus.r_data.eq(r_data_fanin)
 
-        for chunk_offset, w_chunk in self._w_shadow.chunks():
+        for chunk_offset, w_chunk in w_shadow.chunks():
             with m.Switch(self.bus.addr):
                 for reg_range in w_chunk.registers():
-                    chunk_addr = self._w_shadow.encode_offset(chunk_offset, reg_range)
+                    chunk_addr = w_shadow.encode_offset(chunk_offset, reg_range)
                     reg        = self.bus.memory_map.decode_address(reg_range.start)
                     reg_offset = chunk_addr - reg_range.start
                     reg_w_data = reg.element.w_data.word_select(reg_offset, self.bus.data_width)
